@@ -3,14 +3,25 @@ from vcommon import *
 import scen_common, prop_mu_family
 
 PID = "C14"
-PROP_V = ["Props/Properties_C14.v", "Props/Properties_C14b.v"]
+PROP_V = ["Props/Properties_C14.v", "Props/Properties_C14b.v", "Props/Properties_C14c.v"]
 GEN_MODULES = ["Consts", "Sites"]
 FLOW_FILES = ['mu.c']
 REPLAY_HINT = "VRT_SEED=<seed> VRT_ADVERSARY=1 VRT_KIND=<0|1|2> _work/h/starve: the trace notes how often the victim slept inside one lock call"
-PARTIAL = ["non-vacuity: Properties_C14b computes a 30-round adversarial run of the model (word 101 after the 30th failed wake-up, then word 72 with the lock free "
-           "and MU_LONG_WAIT set: a fresh locker queues, the victim acquires and clears the bit); the numeric bound for arbitrary schedules remains unproved",
-           "the numeric bound on the victim's sleeps (C14_bound) is not proved: the four lemmas it follows from are (barrier, escalation + "
-           "enqueue-sets-bit, front re-queueing, a woken waiter ignores the barrier); the bound itself is asserted by the adversarial-schedule oracle"]
+PARTIAL = ["the property's second sentence is a theorem over runs (Properties_C14c, Proof/MuProof5.v; any number of threads < 2^24 - 1, any programs, any schedule): "
+           "C14_long_wait_transition (MU_LONG_WAIT is set only by a successful enqueue CAS of a thread whose wake-up count reached LONG_WAIT_THRESHOLD and cleared "
+           "only by the acquiring CAS of such a thread; no release path touches it), C14_long_wait_owner (the bit has an owner inside lock_slow; an escalated, "
+           "enqueued thread sees the bit set unless ANOTHER long waiter acquired since), C14_no_fresh_overtake / C14_single_victim (from the victim's enqueue "
+           "with the bit until its acquisition every acquiring step is made by a thread that has itself slept in its current call; with one long waiter there "
+           "is no exception; with two the exception is real: C14_exception_witness -- two readers woken together both escalate, the first one's acquisition "
+           "clears the bit), C14_overtaker_waited; non-vacuity: C14c_nonvacuous and the 30-round run of Properties_C14b",
+           "the first sentence read as a NUMERIC bound on the victim's sleeps for arbitrary schedules (C14_bound_full) is REFUTED on the faithful model "
+           "(C14_bound_refuted_reader: 1030 sleeps with 3 threads; C14_bound_refuted_writer: 330 sleeps with 5 threads, no barging writer at all) and the "
+           "refutation replays on the real library (harness/scen/starve2.c, scenario-directed scheduler: the victim blocks ROUNDS + 30 times inside ONE "
+           "nsync_mu_lock call).  The overtakers are threads that HAVE themselves waited in their current call (they queue behind the victim, are woken in "
+           "the same batch of readers or by a release made before the victim ran, and win the race because the scheduler does not run the victim before them): "
+           "the property's own second sentence limits the guarantee to 'threads that have not themselves waited', and its quantifier to adversaries that let a "
+           "FRESH thread in; for that adversary class the bound LONG_WAIT_THRESHOLD + 4 is asserted by the starve oracle (not proved).  Not raised as a finding "
+           "(DESIGN 9.2); reported by the check as an informational line"]
 TRUSTED_BASE = ["harness/scen/starve.c adversary: scenario-directed scheduling that lets a barger take the mutex in every window between the victim's wake-up and its next attempt"]
 
 
@@ -24,6 +35,15 @@ def run(tier, seed):
                    "the mutex in every window between the victim's wake-up and its next attempt, 60 rounds per barger) and random schedules with "
                    "3 bargers; oracle: sleeps of the victim inside ONE lock call <= LONG_WAIT_THRESHOLD + 4; non-trivial = runs in which the "
                    "victim reached the threshold (escalated)")
+    # informational: the refutation of the numeric bound (C14_bound_refuted_*) replayed on the real code; NOT a verdict
+    import vrt_runner
+    exe, err = vrt_runner.build("starve2")
+    if exe is not None:
+        info = {}
+        for k in (1, 2):
+            r = vrt_runner.run_one(exe, 1, {"VRT_KIND": k, "VRT_ROUNDS": 100}, 60)
+            info["KIND=%d" % k] = r.get("prop") or "ok"
+        cov["starve2_outside_the_quantifier"] = info
     cov.update(tie)
     res["coverage"] = cov
     return res
